@@ -8,3 +8,4 @@ open Bec2Verif.Props.C06
 #print axioms cipher_failure_propagates
 #print axioms unregistered_crypto_writes_nothing
 #print axioms consts_pinned
+#print axioms read_decrypts_aes
